@@ -1381,7 +1381,6 @@ theorem tailE_sound {K : Keys} {D : State → Prop} (hrely : Rely (Spec.inv I G)
       args.prioritized = Option.none → HoldsE (Spec.inv I G) (child args) (SoundVal args.s args.alpha args.beta)) :
     HoldsE (Spec.inv I G) (tailE env ctx a hash alpha beta rec) (SoundVal a.s alpha beta) := by
   obtain ⟨ms, hms⟩ := dom.gen hD
-  have hb := dom.bounded _ hD
   cases rec with
   | none =>
     unfold tailE
@@ -1389,7 +1388,7 @@ theorem tailE_sound {K : Keys} {D : State → Prop} (hrely : Rely (Spec.inv I G)
     | error e =>
       obtain ⟨w, rfl⟩ := SearchCtl.quiesce_error_panic _ _ _ _ _ _ _ hq
       exact holdsE_panic trivial
-    | ok v => exact holdsE_pure (quiesce_sound _ _ _ _ _ _ (dom.tree hD) hab hq)
+    | ok v => exact holdsE_pure (quiesce_sound _ _ _ _ _ _ hab hq)
   | some child =>
     unfold tailE
     obtain ⟨ps, hps⟩ := pseudo_of_legal hms
@@ -1427,7 +1426,7 @@ theorem tailE_sound {K : Keys} {D : State → Prop} (hrely : Rely (Spec.inv I G)
       have hn : (st1.nodes == st0.nodes) = true := by rw [hst1.2, hst0.2]; exact beq_self_eq_true _
       rw [if_pos hn]
       cases he : evaluate a.s a.s.turn a.curDepth with
-      | some e => exact holdsE_pure (static_sound hb he)
+      | some e => exact holdsE_pure (static_sound he)
       | none => exact panic_bindE_holds trivial
     · have hne : legalMoves a.s ≠ [] := by rw [hlm]; exact hemp
       refine holdsE_bind (holdsE_liftE (SearchCtl.sort_rngOnly a.s ps) hrng) fun sorted hperm => ?_
@@ -1463,7 +1462,7 @@ theorem tailE_sound {K : Keys} {D : State → Prop} (hrely : Rely (Spec.inv I G)
         by_cases hn : (st1.nodes == st0.nodes) = true
         · rw [if_pos hn]
           cases he : evaluate a.s a.s.turn a.curDepth with
-          | some e => exact holdsE_pure (static_sound hb he)
+          | some e => exact holdsE_pure (static_sound he)
           | none => exact panic_bindE_holds trivial
         · rw [if_neg hn]
           exact hfin
